@@ -40,7 +40,7 @@ def concl(c):
     return f'[kind |-> "def", rel |-> {s(c["func"])}, args |-> {seq(s(v) for v in c["args"])}]'
 
 
-FIELD = re.compile(r"^(?P<rel>.+?)_(?P<age>new|old)(_eqs_(?P<eqs>[0-9_]+?))?_order_(?P<order>[0-9_]+?)(_(?P<scope>own|all))?$")
+FIELD = re.compile(r"^(?P<rel>.+?)_(?P<age>new|old)(_eqs_(?P<eqs>[0-9_]+?))?_order_(?P<order>[0-9_]*?)_?(?P<scope>own|all)?$")
 
 
 def physical(sig, module_path):
@@ -61,7 +61,7 @@ def physical(sig, module_path):
             if not m or m.group("rel") not in by_snake:
                 raise vlib.ToolError(f"cannot classify index field {name}")
             kind, rel = by_snake[m.group("rel")][0]
-            order = [int(x) + 1 for x in m.group("order").split("_")]
+            order = [int(x) + 1 for x in m.group("order").split("_") if x != ""]
             eqs = [int(x) + 1 for x in m.group("eqs").split("_")] if m.group("eqs") else []
             copies.append({"field": name, "rel": rel, "age": m.group("age"), "order": order, "eqs": eqs,
                            "scope": m.group("scope") or "plain", "isType": kind == "type"})
